@@ -180,7 +180,8 @@ def _all_names(f):
         elif isinstance(n, ast.arg):
             names.add(n.arg)
         elif isinstance(n, (ast.FunctionDef, ast.AsyncFunctionDef, ast.ClassDef)):
-            names.add(n.name)
+            if n is not f:  # f's own name lives in the enclosing scope
+                names.add(n.name)
         elif isinstance(n, ast.ExceptHandler) and n.name:
             names.add(n.name)
         elif isinstance(n, (ast.Global, ast.Nonlocal)):
@@ -251,11 +252,12 @@ def _apply(node, mapping, top=True):
             for k, v in mapping.items():
                 if v in nl:
                     inner[k] = v
-        body = node.body if isinstance(node.body, list) else [node.body]
         if isinstance(node, (ast.ListComp, ast.SetComp, ast.GeneratorExp)):
             body = [node.elt] + node.generators
         elif isinstance(node, ast.DictComp):
             body = [node.key, node.value] + node.generators
+        else:
+            body = node.body if isinstance(node.body, list) else [node.body]
         for b in body:
             _walk_apply(b, inner)
         return
@@ -318,7 +320,7 @@ def derename_tree(tree, rel, log=None):
         nonlocal n
         for qn, f in list(functions(node, prefix)):
             r = ref.get(qn)
-            if r:
+            if r and (local_names(f) - set(r)) and (set(r) - local_names(f)):
                 actual = signatures(f)
                 m = match(actual, r)
                 if m and _safe_mapping(f, m):
